@@ -200,8 +200,8 @@ def check_against_myokit(prog, view, ref, tag, extra_dom=None, collect_dom=None)
             prog.fact(label, False, "ConstantMissing", f"Myokit constant {v.qname()} (unique name {v.uname()}) appears neither as parameter nor as intermediate")
 
 
-def work(task):
-    prog = Prog(PROP, task, timeout_ms=20000)
+def work(task, prop=PROP, back=True):
+    prog = Prog(prop, task, timeout_ms=20000)
     o = task["opts"]
     import gotranx
     from gotranx.load import load_ode
@@ -237,6 +237,11 @@ def work(task):
         return prog.result()
     import_dom = []
     check_against_myokit(prog, view, ref, "import", collect_dom=import_dom)
+    if not back:
+        prog.nontrivial = len(ode2.intermediates) > 0
+        if len(prog.samples) < 3:
+            prog.samples.append({"model": task["id"], "saved_head": saved[:200]})
+        return prog.result()
     # and back: gotran -> myokit, walked the same way against the emitted code of the reloaded model
     try:
         back = gotranx.myokit.gotran_to_myokit(ode2)
